@@ -31,6 +31,9 @@ def check_one(p, evid):
     ident = framing.ref_identity(p)
     n = framing.msgnum(p)
     defined = model.definition(ident) is not None
+    if defined and 1070 <= n <= 1229 and n not in MSM_ROSTER:
+        # 1070, 1078-1080, 1088-1090 ... 1128-1130 and 1140-1229 are reserved by RTCM 10403.3: no payload definition
+        raise Fail("reserved-msm-number-has-a-definition", f"{ident} is a reserved number of the MSM block but the tables define a payload for it")
     try:
         m = RTCMMessage(payload=p)
     except lib_errors() as e:
